@@ -707,6 +707,7 @@ const bigF = 1536
 type bigState struct {
 	Fill bool
 	K0   int64
+	K1   int64
 }
 
 const (
@@ -718,10 +719,11 @@ const (
 	bigKeys
 	bigGetAll
 	bigHas
+	bigGet
 	numBigOps
 )
 
-var bigOpNames = []string{"Set(k0)", "Delete(k0)", "Merge(all fillers)", "Clear", "Len", "Keys", "GetAll", "Has(filler)"}
+var bigOpNames = []string{"Set(k0)", "Delete(k0)", "Merge(all fillers)", "Clear", "Len", "Keys", "GetAll", "Has(filler)", "Get(k0|k1)"}
 
 type bigIn struct {
 	Op  int   `json:"op"`
@@ -733,6 +735,7 @@ type bigOut struct {
 	N  int   `json:"n,omitempty"`
 	OK bool  `json:"ok,omitempty"`
 	V  int64 `json:"v,omitempty"`
+	V1 int64 `json:"v1,omitempty"`
 }
 
 type BigOp struct {
@@ -754,13 +757,30 @@ var bigModel = porcupine.Model{
 		if st.K0 != 0 {
 			n++
 		}
+		if st.K1 != 0 {
+			n++
+		}
 		switch in.Op {
 		case bigSet:
-			st.K0 = in.Val
+			if in.Idx%2 == 0 {
+				st.K0 = in.Val
+			} else {
+				st.K1 = in.Val
+			}
 			return true, st
 		case bigDel:
-			st.K0 = 0
+			if in.Idx%2 == 0 {
+				st.K0 = 0
+			} else {
+				st.K1 = 0
+			}
 			return true, st
+		case bigGet:
+			want := st.K0
+			if in.Idx%2 == 1 {
+				want = st.K1
+			}
+			return out.V == want, st
 		case bigRefill:
 			st.Fill = true
 			return true, st
@@ -769,7 +789,7 @@ var bigModel = porcupine.Model{
 		case bigLen, bigKeys:
 			return out.N == n, st
 		case bigGetAll:
-			return out.N == n && out.V == st.K0, st
+			return out.N == n && out.V == st.K0 && out.V1 == st.K1, st
 		case bigHas:
 			return out.OK == st.Fill, st
 		}
@@ -792,9 +812,16 @@ var bigFillerKeys = func() []string {
 func bigApply(s *flyt.SharedStore, in bigIn) bigOut {
 	switch in.Op {
 	case bigSet:
-		s.Set("k0", int(in.Val))
+		s.Set([]string{"k0", "k1"}[in.Idx%2], int(in.Val))
 	case bigDel:
-		s.Delete("k0")
+		s.Delete([]string{"k0", "k1"}[in.Idx%2])
+	case bigGet:
+		if v, ok := s.Get([]string{"k0", "k1"}[in.Idx%2]); ok {
+			if x, ok := v.(int); ok {
+				return bigOut{V: int64(x)}
+			}
+		}
+		return bigOut{}
 	case bigRefill:
 		m := make(map[string]any, bigF)
 		for _, k := range bigFillerKeys {
@@ -813,6 +840,9 @@ func bigApply(s *flyt.SharedStore, in bigIn) bigOut {
 		if v, ok := all["k0"].(int); ok {
 			o.V = int64(v)
 		}
+		if v, ok := all["k1"].(int); ok {
+			o.V1 = int64(v)
+		}
 		return o
 	case bigHas:
 		return bigOut{OK: s.Has(bigFillerKeys[in.Idx%bigF])}
@@ -824,6 +854,9 @@ func recordBigHistory(c *Cfg, idx int) *LinCase {
 	rg := c.Rng("c13big", idx)
 	clients := 2 + rg.IntN(4)
 	mix := []int{bigRefill, bigRefill, bigClear, bigClear, bigLen, bigLen, bigLen, bigKeys, bigGetAll, bigHas, bigHas, bigSet, bigDel}
+	if idx%3 == 0 { // overwrite-heavy: Set / Get / Delete on two hot keys of a store that has seen many deletions
+		mix = []int{bigSet, bigSet, bigSet, bigSet, bigGet, bigGet, bigGet, bigDel, bigDel, bigLen, bigKeys, bigGetAll}
+	}
 	plans := make([][]bigIn, clients)
 	for cl := range plans {
 		n := 5 + rg.IntN(5)
@@ -832,6 +865,18 @@ func recordBigHistory(c *Cfg, idx int) *LinCase {
 		}
 	}
 	store := flyt.NewSharedStore()
+	// a store with a past: before the history starts it is filled (overwrite-heavy mix) and as many keys as it
+	// holds have come and gone again — count/size-triggered maintenance inside the store is then due during the history
+	prefilled := idx%3 == 0
+	if prefilled {
+		bigApply(store, bigIn{Op: bigRefill})
+	}
+	for j := 0; j < bigF; j++ {
+		store.Set(fmt.Sprintf("junk%d", j), j)
+	}
+	for j := 0; j < bigF; j++ {
+		store.Delete(fmt.Sprintf("junk%d", j))
+	}
 	var clock atomic.Int64
 	var ready atomic.Int32
 	var wg sync.WaitGroup
@@ -854,6 +899,9 @@ func recordBigHistory(c *Cfg, idx int) *LinCase {
 	}
 	wg.Wait()
 	lc := &LinCase{Family: "large-store", Clients: clients}
+	if prefilled { // the pre-fill as an operation that completed before everything else
+		lc.Big = append(lc.Big, BigOp{Client: clients, In: bigIn{Op: bigRefill}, Call: -2, Ret: -1})
+	}
 	for _, h := range hist {
 		lc.Big = append(lc.Big, h...)
 	}
